@@ -351,6 +351,10 @@ func (e *Engine) report(st *State, kind, fn, expr string, pos token.Pos, viol *T
 	key := kind + "|" + fn + "|" + expr
 	if src != "" {
 		key = kind + "|" + fn + "|" + src
+		// one level of calling context (distinguishes callers of small helpers)
+		if th := st.threads[st.cur]; len(th.frames) >= 2 {
+			key += "|from " + th.frames[len(th.frames)-2].fn.Name()
+		}
 	}
 	if e.seenF[key] {
 		return
@@ -707,10 +711,32 @@ func (e *Engine) enterBlock(st *State, fr *Frame) {
 	}
 	fr.counts[b]++
 	// solver-decided lasso: can the state at this loop head equal the state at the previous visit?
+	// state = every phi register of the function that currently holds a value (covers enclosing loops) + heap
+	var allPhis []Val
+	for _, blk := range fr.fn.Blocks {
+		for _, in := range blk.Instrs {
+			phi, ok := in.(*ssa.Phi)
+			if !ok {
+				break
+			}
+			if v, ok := fr.regs[phi]; ok {
+				allPhis = append(allPhis, v)
+			} else {
+				allPhis = append(allPhis, nil)
+			}
+		}
+	}
 	if prev := fr.snaps[b]; prev != nil {
 		eq := e.tb.tt
 		for i, pv := range prev.phis {
-			eq = e.tb.And(eq, e.eqLoose(pv, phivals[i]))
+			if pv == nil && allPhis[i] == nil {
+				continue
+			}
+			if pv == nil || allPhis[i] == nil {
+				eq = e.tb.ff
+				break
+			}
+			eq = e.tb.And(eq, e.eqLoose(pv, allPhis[i]))
 			if eq.IsFalse() {
 				break
 			}
@@ -761,7 +787,7 @@ func (e *Engine) enterBlock(st *State, fr *Frame) {
 	for k, v := range st.heap {
 		hp[k] = v
 	}
-	fr.snaps[b] = &snapshot{phis: phivals, heap: hp}
+	fr.snaps[b] = &snapshot{phis: allPhis, heap: hp}
 	if fr.counts[b] > e.cfg.MaxLoop {
 		e.inconc = append(e.inconc, fmt.Sprintf("%s: unwinding bound %d reached in %s (%s)", e.harness, e.cfg.MaxLoop, fr.fn, exprText(e.prog, fr.fn.Pos())))
 		panic(pathDead{"unwind"})
